@@ -196,7 +196,38 @@ func (s *gsim) byzCommit() {
 		return gp.Vote{Hash: b.Hash, Number: uint32(b.Number)}
 	}
 	what := ""
-	if k.Bool(1, 2, "byz-commit-boundary") && len(adv) > 0 {
+	var thisRound []observedPrecommit
+	for _, o := range s.observed {
+		if o.round == round && o.setID == setID {
+			thisRound = append(thisRound, o)
+		}
+	}
+	if len(thisRound) > 0 && k.Bool(1, 6, "byz-commit-transplant") {
+		// signatures are valid for what was signed and for nothing else: first a commit carrying the
+		// honest precommits of this round as they were signed (the node verifies them; the target is
+		// not theirs, so it is refused), then the same authority/signature pairs next to votes for the
+		// target (a verifier that remembers "this signature was good" must not count them)
+		for _, o := range thisRound {
+			add(o.sv.AuthorityID, o.sv.Signature, o.sv.Vote)
+		}
+		first := &gp.CommitMessage{Round: round, SetID: setID, Vote: gp.Vote{Hash: target.Hash, Number: uint32(target.Number)}, Precommits: pre, AuthData: auth}
+		from := s.n
+		if len(adv) > 0 {
+			from = adv[0]
+		}
+		s.pending = append(s.pending, wire{from, n.id, rawOf(first), "byz-commit"})
+		k.Fault("byzantine-commit")
+		pre, auth = nil, nil
+		for _, o := range thisRound {
+			add(o.sv.AuthorityID, o.sv.Signature, onTarget("byz-entry-block"))
+		}
+		for _, a := range adv { // and the adversary's own keys, validly
+			v := onTarget("byz-entry-block")
+			add(pkb(s.keys[a]), signVote(s.keys[a], gp.VerifPrecommit, v, round, setID), v)
+		}
+		k.Probe("honest-signatures-transplanted-onto-other-votes")
+		what = "transplant"
+	} else if k.Bool(1, 2, "byz-commit-boundary") && len(adv) > 0 {
 		// a clean message with a chosen number of supporters around the 2/3 boundary
 		need := 2*len(n.curSet())/3 + 1 // relative to the set the target node is in
 		cnt := need - 1 + k.Choose(2, "byz-boundary-side")
